@@ -206,6 +206,18 @@ pub fn file_text(kind: &str, n: u32, variant: u32) -> String {
             1 => format!("local s{n} = GetShape{n}()\nwhile s{n} do\n    local inner{n} = s{n}\n    s{n} = nil\n    print(inner{n})\nend\nlocal fin{n} = s{n}\nreturn fin{n}\n"),
             _ => format!("local s{n} = GetShape{n}() or \"none\"\nreturn s{n}\n"),
         },
+        // ---- text whose syntax tree depends on parser-relevant configuration at one language level
+        // (require-like / special functions, non-standard symbols)
+        "sp_mod" => match v {
+            0 => format!("return {{ value = {n}, name = \"sp{n}\" }}\n"),
+            1 => format!("local M = {{}}\nM.value = \"v{n}\"\nreturn M\n"),
+            _ => format!("return {n}\n"),
+        },
+        "sp_use" => match v {
+            0 => format!("local m = import(\"sp.mod{n}\")\nlocal v{n} = m.value\nlocal c{n} = 1\nc{n} += 1\n---@type integer?\nlocal maybe{n} = nil\ncheck(maybe{n})\nlocal sure{n} = maybe{n}\nreturn v{n}, c{n}, sure{n}\n"),
+            1 => format!("local m = import(\"sp.mod{n}\")\nreturn m.name\n"),
+            _ => format!("for i = 1, 3 do\n    if i == 2 then continue end\n    print(i)\nend\n"),
+        },
         // ---- a module table (plain table literal) that another file extends through `require`
         "mx_base" => match v {
             0 => format!("local M = {{}}\n\n---base doc\nfunction M.base()\n    return 1\nend\n\nM.count = 0\n\nreturn M\n"),
@@ -256,6 +268,7 @@ pub fn group(kind: &str, n: u32) -> Vec<FileSpec> {
         "namespace" => vec![f(format!("ns/def{n}.lua"), "ns_def"), f(format!("ns/use{n}.lua"), "ns_use")],
         "callable" => vec![f(format!("call/def{n}.lua"), "call_def"), f(format!("call/use{n}.lua"), "call_use")],
         "flow" => vec![f(format!("flow/def{n}.lua"), "flow_def"), f(format!("flow/use{n}.lua"), "flow_use")],
+        "special" => vec![f(format!("sp/mod{n}.lua"), "sp_mod"), f(format!("sp/use{n}.lua"), "sp_use")],
         "modext" => vec![f(format!("mx/base{n}.lua"), "mx_base"), f(format!("mx/ext{n}.lua"), "mx_ext"), f(format!("mx/use{n}.lua"), "mx_use")],
         "private" => vec![f(format!("pv/a{n}.lua"), "priv_a"), f(format!("pv/b{n}.lua"), "priv_b")],
         "inherit" => vec![
@@ -268,7 +281,7 @@ pub fn group(kind: &str, n: u32) -> Vec<FileSpec> {
     }
 }
 
-pub const GROUP_KINDS: &[&str] = &["class", "glob", "mod", "cycle", "types", "diag", "broken", "meta", "lib", "inherit", "member", "generic", "overload", "namespace", "callable", "flow", "modext", "private"];
+pub const GROUP_KINDS: &[&str] = &["class", "glob", "mod", "cycle", "types", "diag", "broken", "meta", "lib", "inherit", "member", "generic", "overload", "namespace", "callable", "flow", "modext", "private", "special"];
 
 /// Draw a workspace of `lo..=hi` files.
 pub fn gen_workspace(r: &mut Rng, lo: usize, hi: usize) -> Vec<FileSpec> {
@@ -303,9 +316,11 @@ pub struct Cfg {
 
 pub fn emmyrc_for(cfg: &Cfg, root: &std::path::Path, with_lib: bool) -> emmylua_code_analysis::Emmyrc {
     let mut v = serde_json::json!({});
-    match cfg.variant % 5 {
+    match cfg.variant % 7 {
         1 => v["runtime"] = serde_json::json!({"version": "Lua5.1"}),
         2 => v["runtime"] = serde_json::json!({"version": "LuaJIT"}),
+        5 => v["runtime"] = serde_json::json!({"requireLikeFunction": ["import"], "special": {"check": "assert"}}),
+        6 => v["runtime"] = serde_json::json!({"nonstandardSymbol": ["+=", "continue"]}),
         3 => v["strict"] = serde_json::json!({"requirePath": true, "arrayIndex": false, "typeCall": true}),
         4 => v["diagnostics"] = serde_json::json!({"disable": ["unused", "undefined-global"]}),
         _ => {}
